@@ -144,6 +144,41 @@ def dtype_stream(ctx):
             ctx.count('dtype-stream')
 
 
+def nd_stream(ctx):
+    """Linear layers fed inputs of rank 1, 3 and 4 (sequence / image-like activations): both factors are second moments
+    over ALL rows (every sample and position), i.e. the factors of the flattened (rows, features) view"""
+    from kfac.preconditioner import KFACPreconditioner
+    rng = ctx.rng
+    for _ in range(ctx.budget(10, 80)):
+        lead = rng.choice([(), (3,), (4, 5), (2, 3, 4), (6, 1)])
+        bias = rng.random() < 0.6
+        torch.manual_seed(rng.randrange(10**6))
+        m = torch.nn.Sequential(torch.nn.Linear(3, 2, bias=bias)).double()
+        case = {'input_shape': list(lead) + [3], 'bias': bias}
+        try:
+            p = KFACPreconditioner(m, factor_decay=0.5, kl_clip=None)
+            x = torch.randn(*lead, 3, dtype=torch.float64)
+            y = m(x)
+            y.retain_grad()
+            y.pow(2).sum().backward()
+            p.step()
+            sd = p.state_dict()['layers']['0']
+            a = x.reshape(-1, 3)
+            if bias:
+                a = torch.cat([a, torch.ones(a.shape[0], 1, dtype=torch.float64)], 1)
+            g = y.grad.reshape(-1, 2)
+            wantA = 0.5 * torch.eye(a.shape[1], dtype=torch.float64) + 0.5 * (a.t() @ a / a.shape[0])
+            wantG = 0.5 * torch.eye(2, dtype=torch.float64) + 0.5 * (g.t() @ g / g.shape[0])
+            eA, eG = kfacsim.relerr(sd['A'].double(), wantA), kfacsim.relerr(sd['G'].double(), wantG)
+            if eA > 1e-9 or eG > 1e-9:
+                ctx.fail(f'Linear layer with input of shape {tuple(x.shape)}: factor {"A" if eA > 1e-9 else "G"} is not the second moment '
+                         f'over all {a.shape[0]} rows (relerr A {eA:.2e}, G {eG:.2e})', case, 'nd-linear-factor')
+        except Exception as e:  # noqa: BLE001
+            ctx.fail(f'N-d linear input raised {type(e).__name__}: {e}', case, 'nd-linear-raised')
+        ctx.evaluations += 1
+        ctx.count('nd-linear-rank%d' % (len(lead) + 1))
+
+
 def scaler_stream(ctx):
     """with a gradient scaler, G's batch moment is the mean over the accumulated micro-batches of
     cov(g_i / s_i), s_i the loss scale in force at micro-batch i (it may change between micro-batches:
@@ -244,6 +279,7 @@ def run(ctx):
     dtype_stream(ctx)
     scaler_stream(ctx)
     half_stream(ctx)
+    nd_stream(ctx)
 
 
 def search(ctx):
